@@ -35,7 +35,8 @@ def oracle(tr):
     tk = Tracker()
     svc = tr.svc
     startable = {n: (kind, tag) for _, n, kind, tag in svc.files}
-    waiting = {}        # name -> {"msgs": [(conn, serial, type, auto)], "prog": number or None}
+    waiting = {}        # name -> {"msgs": [(conn, serial, type, auto)], "prog": number or None, "born": virtual ms}
+    now = 0             # the virtual clock (only `advance` moves it)
     stats = {"activations": 0, "joined": 0, "held_delivered": 0, "held_refused": 0, "failed_waiters": 0, "timeouts": 0,
              "start_replies": 0, "max_waiters": 0}
     for i, (per, closed) in enumerate(tr.steps):
@@ -132,6 +133,12 @@ def oracle(tr):
             failed += [n for n in waiting if n not in failed and startable[n][1] in tags and startable[n][0] == "shared"]
         if op[0] == "actsleep":
             failed = list(waiting); stats["timeouts"] += len(failed)
+        if op[0] == "advance":
+            # the start timeout runs from the moment the program was started, whoever joins later
+            now += op[1]
+            failed = [n for n, w in waiting.items() if w["born"] + svc.start_timeout <= now]
+            stats["timeouts"] += len(failed); stats["advances"] = stats.get("advances", 0) + 1
+            stats["activations_surviving_an_advance"] = stats.get("activations_surviving_an_advance", 0) + len(waiting) - len(failed)
         want = {}
         for n in failed:
             w = waiting.pop(n)
@@ -153,7 +160,7 @@ def oracle(tr):
                 nums = [num for tag, num in info["started"] if tag == startable[n][1]]
                 if not nums:
                     bad.append((None, "step %d: message for ownerless startable %s was neither answered nor was its program started" % (i, n)))
-                waiting[n] = {"msgs": [rec], "prog": nums[0] if nums else None}
+                waiting[n] = {"msgs": [rec], "prog": nums[0] if nums else None, "born": now}
                 stats["activations"] += 1
             stats["max_waiters"] = max(stats["max_waiters"], len(waiting[n]["msgs"]))
         # held messages must not reach anybody before the name is taken
@@ -190,7 +197,8 @@ def _job(args):
 
 
 def run_histories(ctx, n_hist, n_ops, svc, gen_kw=None, policy=busdiff.SESSION, limits=None, seed_salt=0, label="", scripts=None,
-                  findings=None):
+                  findings=None, oracle_fn=None, prop=None):
+    """oracle_fn: another property's trace oracle to be applied to activation histories instead of C19's"""
     jobs = [(ctx.seed * 1000003 + seed_salt * 7919 + i, n_ops, gen_kw or {}, policy.rules, limits, svc.to_json()) for i in range(n_hist)]
     if scripts is not None:
         jobs = [(i, len(sc), {"script": sc}, policy.rules, limits, svc.to_json()) for i, sc in enumerate(scripts)]
@@ -211,8 +219,8 @@ def run_histories(ctx, n_hist, n_ops, svc, gen_kw=None, policy=busdiff.SESSION, 
         ops = [actdiff.parse_op(s) for s in r["ops"]]
         steps = [({int(k): v for k, v in per.items()}, set(cl)) for per, cl in r["isteps"]]
         tr = ActTrace(ops, steps, {int(k): v for k, v in r["unique"].items()}, r["infos"], svc)
-        bad = oracle(tr)
-        for k, v in tr.act_stats.items():
+        bad = (oracle_fn or oracle)(tr)
+        for k, v in getattr(tr, "act_stats", {}).items():
             totals[k] = max(totals.get(k, 0), v) if k == "max_waiters" else totals.get(k, 0) + v
         spawned += sum(len(x["started"]) for x in r["infos"])
         unlisted = [(c, t) for c, t in bad if c not in findings]
@@ -240,7 +248,8 @@ def run_histories(ctx, n_hist, n_ops, svc, gen_kw=None, policy=busdiff.SESSION, 
     return good
 
 
-def replay_history(path, pid="C19"):
+def replay_history(path, pid="C19", oracle_fn=None, prop=None):
+    pid = prop or pid
     data = json.load(open(path))
     rp = data["replay"]
     if rp.get("kind") != "act-history":
@@ -252,6 +261,6 @@ def replay_history(path, pid="C19"):
     steps, died, unique, infos = actdiff.run_impl(ops, policy, rp.get("limits"), svc)
     diff = actdiff.compare(ops, policy, rp.get("limits"), svc, impl=(steps, died, unique, infos))
     tr = ActTrace(ops, busdiff.dump_steps(steps), unique, infos, svc)
-    bad = oracle(tr)
+    bad = (oracle_fn or oracle)(tr)
     print("replay %s: daemon-died=%s oracle=%s diff=%s" % (pid, bool(died), [t for _, t in bad][:3], json.dumps(diff)[:600] if diff else None))
     return 1 if (died or bad or diff) else 0
